@@ -516,3 +516,34 @@ package ssh
 //@ modifies heap
 //@ check_at "if val, in, ok = parseString(in); !ok {" !loopvar(1, haveLastKey) || loopvar(1, lastKey) < keyStr
 //@ canary ensures result1 != nil
+
+// ---- C38 (part): the text parsers of authorized_keys and known_hosts lines never index out of range ----
+// for every byte string: line splitting, comment and blank handling, the quoted options scanner, the marker
+// and field handling of known_hosts. The searches of package bytes are assumed to return positions inside
+// their argument and bytes.Fields non-empty fields; ParsePublicKey (the binary key blob) is trusted here.
+//@ func ParsePublicKey
+//@ trusted
+//@ note parser of the binary public key blob (per-type parsers, reflection-based Unmarshal): not verified here
+//@ modifies heap
+//@ ensures implies(err == nil, out != nil)
+
+//@ func parseAuthorizedKey
+//@ props C38
+//@ modifies heap
+//@ ensures implies(err == nil, out != nil)
+//@ canary ensures err != nil
+
+//@ func ParseKnownHosts
+//@ props C38
+//@ assume_global io.EOF != nil
+//@ modifies heap
+//@ ensures implies(err == nil, pubKey != nil)
+//@ canary ensures err != nil
+
+//@ func ParseAuthorizedKey
+//@ props C38
+//@ modifies heap
+//@ ensures implies(err == nil, out != nil)
+//@ loop 2 invariant -1 <= rangeindex && rangeindex < len(in) && 0 <= optionStart && optionStart <= rangeindex + 1 && 0 <= i && i < len(in)
+//@ loop 3 invariant 0 <= i && i <= len(in)
+//@ canary ensures err != nil
